@@ -1,6 +1,6 @@
 SPECIFICATION Spec
 CONSTANTS
-  MaxLeaves = 3
+  MaxLeaves = 4
   MaxArity = 3
   UnaryUpTo = 2
   Pats = {2}
